@@ -1,10 +1,11 @@
-#!/bin/sh
-# usage: seedtest.sh <seed-dir> [props...]  — applies patch.diff to /repo, runs the checks, reverts.
+#!/bin/bash
+# usage: seedtest.sh <seed-dir> [props...]  — applies patch.diff to /repo, runs the quick checks, reverts.
 d="$1"; shift
+props="$@"; [ -z "$props" ] && props=$(python3 -c "import json;print(json.load(open('$d/meta.json'))['property'])")
 git -C /repo apply "$d/patch.diff" || { echo "APPLY FAILED $d"; exit 3; }
-for p in "$@"; do
-  out=$(/verif/check.sh $p quick 2>&1 | grep -v '^WARNING'); code=$?
+for p in $props; do
+  out=$(/verif/check.sh $p quick 2>&1 | grep -v '^WARNING')
   echo "== $(basename $d) $p: $(echo "$out" | grep -c '^VIOLATION') violations; $(echo "$out" | grep -c '^BROKEN') broken"
-  echo "$out" | grep '^VIOLATION\|^BROKEN' | cut -c1-400
+  echo "$out" | grep '^VIOLATION\|^BROKEN' | cut -c1-330
 done
 git -C /repo checkout -- . ; git -C /repo status --short | head -3
